@@ -180,10 +180,32 @@ func (d *Disk) Mark(name string, arg uint64) {
 }
 
 // SetPlan installs a fault plan (nil removes it).
-func (d *Disk) SetPlan(p *Plan) { d.plan = p }
+func (d *Disk) SetPlan(p *Plan) {
+	d.mu.Lock()
+	d.plan = p
+	d.mu.Unlock()
+}
+
+// CallCount returns the number of faultable calls so far.
+func (d *Disk) CallCount() int {
+	d.mu.Lock()
+	defer d.mu.Unlock()
+	return d.Calls
+}
+
+// PlanNext installs a plan failing the next n faultable calls.
+func (d *Disk) PlanNext(kind FaultKind, n int) {
+	d.mu.Lock()
+	d.plan = &Plan{Index: d.Calls, Kind: kind, Burst: n}
+	d.mu.Unlock()
+}
 
 // Locked reports whether the advisory lock is held.
-func (d *Disk) Locked() bool { return d.locked }
+func (d *Disk) Locked() bool {
+	d.mu.Lock()
+	defer d.mu.Unlock()
+	return d.locked
+}
 
 // ForceUnlock drops the lock and detaches any open handle (simulates the
 // process dying).
